@@ -22,7 +22,9 @@ RULE = ("cells = (pair family x parametrisation x dimension/geometry x interface
         "(member of the refusal alphabet x interface), (one re-targeted sampler object x interface), (target family) for "
         "Direct.  A supported cell runs inside the full product Gamma(shape, rate) in {0.5,1,3}x{1e-4,1,2} x mean/data "
         "catalogue {generic dyadic.., zero residual, all-zero data, data with some exact zeros, integer-dtype counts, "
-        "all-zero mean, mean and data all-zero}; the Gamma request is captured and its textbook log-density is compared "
+        "all-zero mean, mean and data all-zero; magnitude of the operands: mean and data with the common offset 2^27 resp. -2^40 "
+        "and an O(1) dyadic difference, mean and data multiplied by 2^30 (t-grid x 2^-60, where that conditional has its "
+        "mass) resp. by 2^-30 - all entries exactly representable}; the Gamma request is captured and its textbook log-density is compared "
         "with target.logd on the whole t-grid (the densely written textbook update rank/2+a, r'P1r/2+b is computed "
         "alongside as a second, informational oracle).  A refusal cell offers the posterior (n in {2,3} x 3 priors) through "
         "every acceptance route - stateless interface: constructor+step; stateful interface: constructor, target setter on "
@@ -82,8 +84,9 @@ RULE = ("cells = (pair family x parametrisation x dimension/geometry x interface
         "request was judged; a producer cell when the supported member was accepted in the fresh history")
 BOUND = {
     "quick": "Gaussian dims 1..4 x {cov=1/s, cov=1.0/s, prec=s, prec=s*ones, scalar mean with cov / prec}; GMRF 1-D "
-             "N=2..5 + 2-D 2x2,3x3 x bc {zero,neumann,periodic} x order 0..2; 9 Gamma(shape,rate) x 7 mean/data kinds "
-             "(1 generic vector, zero residual, 5 zero/integer kinds); t-grid {0.1,0.5,1,2,7,30}; refusal alphabet: 19 "
+             "N=2..5 + 2-D 2x2,3x3 x bc {zero,neumann,periodic} x order 0..2; 9 Gamma(shape,rate) x 11 mean/data kinds "
+             "(1 generic vector, zero residual, 5 zero/integer kinds, 4 magnitude kinds: offset 2^27, offset -2^40, scale "
+             "2^30, scale 2^-30); t-grid {0.1,0.5,1,2,7,30}; refusal alphabet: 19 "
              "unsupported dependences / priors + 9 several-occurrence likelihoods (mean with cov, prec, sqrtcov, sqrtprec; "
              "GMRF mean with prec, zero and periodic bc; mean forms s*v, sqrt(s)*v, v/s) on both interfaces + (LMRF "
              "location with scale) on ConjugateApprox, x 5 routes on the stateful interface; near-miss family (stateful "
@@ -96,8 +99,8 @@ BOUND = {
              "interfaces + 2 approximate pairs on the stateful interface) x 6 producers = 48 cells, each n = 3 x prior "
              "Gamma(3,2) x routes x {4 members fresh, 3 unsupported members after the accepted supported sibling, the "
              "supported member after each of 3 unsupported siblings}; other-layout GMRF: all 2-D cells (1-D N*N) and 1-D N = 4",
-    "thorough": "Gaussian dims 1..10; GMRF 1-D N=2..10 + 2-D 2x2..5x5; 9 Gamma(shape,rate) x 9 mean/data kinds "
-                "(3 generic vectors, zero residual, 5 zero/integer kinds); near-miss |d| in "
+    "thorough": "Gaussian dims 1..10; GMRF 1-D N=2..10 + 2-D 2x2..5x5; 9 Gamma(shape,rate) x 13 mean/data kinds "
+                "(3 generic vectors, zero residual, 5 zero/integer kinds, 4 magnitude kinds); near-miss |d| in "
                 "2^-{6,10,14,17,20,23,26,40}; name facet: dims 1..5, all 9 Gamma(shape,rate); producer facet: n in {2,3} x 2 "
                 "priors; other-layout GMRF: 2-D 2x2..5x5 (1-D 4..25) and 1-D N = 4, 9; otherwise as quick",
 }
@@ -126,6 +129,12 @@ ASSUMPTIONS = [
     "GMRF neumann/periodic log-determinants come from ARPACK (eigsh) whose start vector depends on process-global "
     "state: which of the order-2 neumann sub-cases are non-finite may differ between runs (counts vary by a few, "
     "verdict signatures do not)",
+    "magnitude facet: two common offsets (2^27, -2^40: ratio |mean| / |mean - data| of 1e8 resp. 1e12) and two common "
+    "scales (2^30, 2^-30) with the generic name, the constructor+step route and the supported pairs of the supported "
+    "cells only; offsets that differ between entries by orders of magnitude, magnitudes near the overflow / underflow "
+    "threshold of float64, extreme prior shape / rate values and extreme magnitudes in the refusal, near-miss (data "
+    "scale 2^10 there), name and producer cells are not covered; for GMRF with neumann / periodic bc a constant offset "
+    "is in the null space of the difference operator, there the facet shows through the dyadic part of the mean only",
     "data catalogue: float64 and int64 arrays; lists, float32, masked arrays and non-finite data are not covered",
     "stateless interface (cuqi.sampler.Conjugate): its only acceptance route is constructor followed by step (target is "
     "a plain attribute, there is no validation stage or listing); 'rejected' = an exception before a draw is returned. "
@@ -408,6 +417,15 @@ def _judge(cap_rec, tl, grid, tol):
 # supported pairs
 # ----------------------------------------------------------------------------------------
 DATA_KINDS = ["data=0", "data=some0", "data=int", "mean=0", "mean=data=0"]
+# magnitude of the operands (mean / forward-model output and data) relative to their difference and to 1: every entry
+# exactly representable, so the posterior is the same textbook one; only the arithmetic route to it is exercised
+#   offset=2^27 : mean and data share the common offset 2^27 (1.3e8), their difference is the generic O(1) dyadic residual
+#   offset=-2^40: the same with offset -2^40 (-1.1e12) and the residual of the second catalogue
+#   scale=2^30  : generic mean and data multiplied by 2^30 (|r|^2 ~ 2^60; the conditional has its mass near t ~ 2^-60)
+#   scale=2^-30 : generic mean and data multiplied by 2^-30 (|r|^2 ~ 2^-60, far below the prior rate)
+MAG_KINDS = ["offset=2^27", "offset=-2^40", "scale=2^30", "scale=2^-30"]
+MAG_GRID_EXP = {"scale=2^30": -60}      # t-grid multiplied by 2^e: placed where the conditional has its mass
+SPECIAL_KINDS = DATA_KINDS + MAG_KINDS
 _COUNTS = (0, 3, 0, 1, 2, 0, 0, 5, 1, 0, 4, 0)
 
 
@@ -430,6 +448,14 @@ def _residuals(n, k, nres):
     out.append(("data=int", m, np.array([_COUNTS[(i + k) % len(_COUNTS)] for i in range(n)], dtype=np.int64)))
     out.append(("mean=0", np.zeros(n), b))
     out.append(("mean=data=0", np.zeros(n), np.zeros(n)))
+    # magnitude facet (appended last: callers that take the leading members are unaffected)
+    m8 = refs.dyadic_vec(n, k + 1, scale=0.125)
+    r4 = refs.dyadic_vec(n, k, scale=0.25)
+    r4b = refs.dyadic_vec(n, k + 2, scale=0.25)
+    out.append(("offset=2^27", 2.0 ** 27 + m8, (2.0 ** 27 + m8) + r4))
+    out.append(("offset=-2^40", -2.0 ** 40 + m8, (-2.0 ** 40 + m8) + r4b))
+    out.append(("scale=2^30", m * 2.0 ** 30, b * 2.0 ** 30))
+    out.append(("scale=2^-30", m * 2.0 ** -30, b * 2.0 ** -30))
     return out
 
 
@@ -499,6 +525,7 @@ def _eval_supported(cell, res):
     comp = IFACE_NAME[iface]
     accepted = judged = 0
     first = True
+    _GRID0 = GRID = globals()["GRID"]
     # two objects in one process: a GMRF of the same dimension, order and bc on the OTHER grid layout (1-D with N*N nodes
     # <-> 2-D N x N) is created before the members of this cell are built, and is itself a judged member after them
     other = _other_layout(cell) if cell["kind"] == "gmrf" else None
@@ -512,7 +539,8 @@ def _eval_supported(cell, res):
     special_first = {}
     generic_ok = 0
     for rname, mean, data in _residuals(n, cell["cat"], cell["nres"]):
-        special = rname in DATA_KINDS
+        special = rname in SPECIAL_KINDS
+        GRID = [t * 2.0 ** MAG_GRID_EXP[rname] for t in _GRID0] if rname in MAG_GRID_EXP else _GRID0
         for (a, r) in GAMMA_PARAMS:
             res.state("%s|a=%g,r=%g" % (rname, a, r))
             try:
@@ -595,6 +623,7 @@ def _eval_supported(cell, res):
             if res.sample is None:
                 res.sample = {"prior": [a, r], "residual": rname, "captured_shape": cap[0]["shape_param"],
                               "captured_scale": cap[0]["scale"], "t_grid": GRID, "target_logd": tl}
+    GRID = _GRID0
     if other is not None:
         # ... and the other layout as a member, built AFTER this cell's members (both orders inside one cell)
         mean = refs.dyadic_vec(n, cell["cat"] + 1, scale=0.125)
